@@ -60,6 +60,14 @@ def run_impl(pg, fam="int"):
         P = build_pag(pg, lab)
     except Exception as e:
         return {"res": "err:build:" + type(e).__name__}
+    try:
+        from . import c08 as _c08
+        _c08.pollute_other_objects()
+    except Exception:
+        pass
+    if C.warm_decide({"g": pg, "fam": fam}, 4):
+        # query, edit the same object in place, query again (see common.warmup)
+        C.warmup(P, lambda: pag_to_mag(P), layers=("circle", "directed", "bidirected", "undirected"))
     corder = [(lab.inv(a), lab.inv(b)) for a, b in set(P.copy().circle_edges)]
     before = C.snapshot(P)
     try:
